@@ -195,11 +195,17 @@ def main():
             # independent re-check of the compiled property files and everything they depend on (coqchk), with the list of
             # axioms / unsafe features it finds; any entry other than <none> fails the proof step
             rep.coqchk = {}
-            for t in tops:
-                if not t.startswith("Properties_"):
-                    continue
-                rc_, out_ = vlib.sh("ulimit -v 14000000; timeout %d coqchk -silent -o -Q . LY LY.%s"
-                                    % (int(os.environ.get("VERIF_COQCHK_LIMIT", "2400")), t[:-2]), cwd=vlib.COQ, timeout=3000)
+            import re as _re
+            from concurrent.futures import ThreadPoolExecutor as _TPE
+            ptops = [t for t in tops if t.startswith("Properties_")]
+            limit = int(os.environ.get("VERIF_COQCHK_LIMIT", "1500"))
+
+            def _chk(t):
+                return t, vlib.sh("ulimit -v 14000000; timeout %d coqchk -silent -o -Q . LY LY.%s" % (limit, t[:-2]),
+                                  cwd=vlib.COQ, timeout=limit + 300)
+            with _TPE(max_workers=3) as ex_:
+                results_ = list(ex_.map(_chk, ptops))
+            for t, (rc_, out_) in results_:
                 if rc_ == 124:
                     # the independent checker is slow on the exhaustive sweeps (every code point, every short string): running
                     # out of time is recorded, it is not a failed obligation (coqc has checked the file)
@@ -209,7 +215,6 @@ def main():
                 summ = {}
                 for key in ("Axioms", "Constants/Inductives relying on type-in-type",
                             "Constants/Inductives relying on unsafe (co)fixpoints", "Inductives whose positivity is assumed"):
-                    import re as _re
                     m_ = _re.search(_re.escape("* " + key) + r":\s*(.*?)(?:\n\s*\n|\Z)", out_, flags=_re.S)
                     summ[key] = " ".join(m_.group(1).split()) if m_ else "?"
                 rep.coqchk[t] = {"rc": rc_, "summary": summ}
